@@ -418,4 +418,6 @@ def run(chk, ctx):
     round3.validator_stateless(chk, ctx)
     round3.drop_arm_acks_directly(chk, ctx)
     round3.validator_hashless(chk, ctx)
+    from . import round4
+    round4.regex_on_strings_only(chk, ctx)
     chk.assume("JSON object keys are strings; the 12 JSON kinds enumerate every value json.loads can produce")
